@@ -12,6 +12,41 @@ def showDec (ty : Ty) : Res Val → String
   | .err _ => "err"
   | .panic e => "panic:" ++ e
 
+
+/-! ### nesting limit on a recursive message type (`proto.deep`)
+
+Go side: `type recG[T any] struct { Next *recG[T]; V int32; Leaf T }` (harness/protodeep.go). The `Ty` universe has no
+recursive types, so the model decodes against the unrolling `chainTy n leaf` with `n` larger than any depth the decoder
+can reach (`maxDepth + 3`; every struct decoder beyond `maxDepth` fails before it reads a byte). -/
+
+def chainStep (leaf next : Ty) : Ty :=
+  .struct (.cons "Next" "" false (.ptr next) (.cons "V" "" false (.int .i32) (.cons "Leaf" "" false leaf .nil)))
+
+/-- `n` levels of `recG[leaf]`; below them a message without fields -/
+def chainTy (n : Nat) (leaf : Ty) : Ty := (List.range n).foldl (fun t _ => chainStep leaf t) (.struct .nil)
+
+/-- the input both sides build: `inner` (body of the innermost message) wrapped `levels - 1` times as field 1 (Next), every
+enclosing message carrying `pre` before and `post` after that field -/
+def nestBytes (levels : Nat) (pre post inner : Bytes) : Bytes :=
+  -- body lengths from the innermost (l_1 = |inner|) outwards; `hdrs` = headers, outermost first
+  let step := fun (acc : Nat × List Bytes) (_ : Nat) =>
+    let (l, hdrs) := acc
+    let hdr := pre ++ [0x0a] ++ Model.Proto.encodeVarint (BitVec.ofNat 64 l)
+    (hdr.length + l + post.length, hdr :: hdrs)
+  let (_, hdrs) := (List.range (levels - 1)).foldl step (inner.length, [])
+  hdrs.flatten ++ inner ++ (List.replicate (levels - 1) post).flatten
+
+def byteSum (b : Bytes) : Nat := b.foldl (fun a x => (a + x.toNat) % 4294967296) 0
+
+/-- walk the decoded chain: (number of levels, V of the innermost, Leaf of the innermost) -/
+def walkChain : Nat → Val → Nat → Nat × Int × Val
+  | 0, _, n => (n, 0, .nil)
+  | fuel + 1, .struct (.cons next (.cons (.int v) (.cons lf .nil))), n =>
+    match next with
+    | .ptr nx => walkChain fuel nx (n + 1)
+    | _ => (n + 1, v, lf)
+  | _, _, n => (n, 0, .nil)
+
 def handle (op : String) (args : List String) : Option (String × String × String) :=
   match op, args with
   | "proto.varint", [n] => do
@@ -88,6 +123,23 @@ def handle (op : String) (args : List String) : Option (String × String × Stri
     -- spec: the statement of C16 itself
     let s := if n ≥ size then s!"ok:n={size};bytes=same;guard=1" else "shortbuffer;guard=1"
     pure (m, s, "")
+  -- proto.deep <leafTy> <levels> <prehex> <posthex> <innerhex>
+  | "proto.deep", [lt, lv, pre, post, inner] => do
+    let leaf ← Ty.parse lt
+    let levels ← lv.toNat?
+    let pre ← fromHex pre
+    let post ← fromHex post
+    let inner ← fromHex inner
+    let b := nestBytes levels pre post inner
+    let ty := chainTy (Gen.c_proto_maxDepth + 3) leaf
+    let hd := s!"len={b.length};sum={byteSum b};"
+    let m := match Model.Proto.unmarshal ty b with
+      | .ok v =>
+        let (n, vv, lf) := walkChain (levels + 8) v 0
+        s!"ok:n={n};v={vv};leaf=" ++ (Spec.Protobuf.canonical leaf lf).show
+      | .err _ => "err"
+      | .panic e => "panic:" ++ e
+    pure (hd ++ m, "-", "")
   | "proto.decodeany", [ty, h] => do
     let ty ← Ty.parse ty
     let b ← fromHex h
